@@ -95,8 +95,8 @@ func (r *FecInterceptor) BindLocalStream(
 			var fecPackets []rtp.Packet
 			stream.mu.Lock()
 			stream.packetBuffer = append(stream.packetBuffer, rtp.Packet{
-				Header:  *header,
-				Payload: payload,
+				Header:  header.Clone(),
+				Payload: append([]byte(nil), payload...),
 			})
 
 			// Check if we have enough packets to generate FEC
